@@ -1,8 +1,15 @@
 package props
 
 import (
+	"math/big"
+	"strings"
 	"sync"
+	"time"
 
+	"github.com/markkurossi/mpc/circuit"
+	"github.com/markkurossi/mpc/compiler"
+	"github.com/markkurossi/mpc/compiler/utils"
+	"github.com/markkurossi/mpc/env"
 	"github.com/markkurossi/mpc/ot"
 	"github.com/markkurossi/mpc/p2p"
 
@@ -85,4 +92,134 @@ func runPair(d *duplex, fa, fb func() error) (ra, rb partyResult) {
 	wg.Wait()
 	d.finish()
 	return
+}
+
+// ---- two-party garbled-circuit sessions ------------------------------------
+
+// yaoOpts configures one whole-circuit session.
+type yaoOpts struct {
+	ot       int // 0 CO, 1 COT semi-honest, 2 COT malicious, 3 RSA-1024
+	kind     int // duplex kind (2 tap, 3 p2p.Pipe)
+	record   bool
+	stallWin time.Duration   // >0: stall detector on the tap link
+	prepare  func(d *duplex) // e.g. install faults
+}
+
+type yaoOut struct {
+	g, e    partyResult
+	gRes    []*big.Int
+	eRes    []*big.Int
+	d       *duplex
+	rec     *otx.Recorder // around the garbler's OT
+	erec    *otx.Recorder // around the evaluator's OT
+	stalled bool
+	otName  string
+}
+
+func mkOT(r *vrt.Rng, kind int) (ot.OT, string) {
+	switch kind {
+	case 1:
+		return ot.NewCOT(ot.NewCO(r.Fork()), r.Fork(), false, false), "COT"
+	case 2:
+		return ot.NewCOT(ot.NewCO(r.Fork()), r.Fork(), true, false), "COT-malicious"
+	case 3:
+		return ot.NewRSA(r.Fork(), 1024), "RSA-1024"
+	default:
+		return ot.NewCO(r.Fork()), "CO"
+	}
+}
+
+// runYao runs circuit.Garbler against circuit.Evaluator. The garbler is
+// endpoint A (direction 0 is garbler -> evaluator).
+func runYao(r *vrt.Rng, c *circuit.Circuit, x, y *big.Int, o yaoOpts) *yaoOut {
+	out := &yaoOut{}
+	d := newDuplex(r, o.kind, o.record)
+	out.d = d
+	if o.prepare != nil {
+		o.prepare(d)
+	}
+	if d.link != nil && o.stallWin > 0 {
+		d.link.Watch(o.stallWin, 2)
+	}
+	gi, name := mkOT(r, o.ot)
+	ei, _ := mkOT(r, o.ot)
+	out.otName = name
+	out.rec = &otx.Recorder{Inner: gi}
+	out.erec = &otx.Recorder{Inner: ei}
+	cfg := &env.Config{Rand: r.Fork()}
+	out.g, out.e = runPair(d, func() (err error) {
+		out.gRes, err = circuit.Garbler(cfg, d.connA, out.rec, c, x, false)
+		return
+	}, func() (err error) {
+		out.eRes, err = circuit.Evaluator(d.connB, out.erec, c, y, false)
+		return
+	})
+	if d.link != nil {
+		out.stalled = d.link.Stalled()
+	}
+	return out
+}
+
+// ---- streaming sessions -----------------------------------------------------
+
+type streamOut struct {
+	g, e       partyResult
+	gIO, eIO   circuit.IO
+	gRes, eRes []*big.Int
+	d          *duplex
+	rec        *otx.Recorder
+	stalled    bool
+	otName     string
+}
+
+// runStream runs Compiler.Stream (garbler, endpoint A) against
+// circuit.StreamEvaluator (endpoint B), exchanging input sizes first as
+// apps/garbled does.
+func runStream(r *vrt.Rng, src string, params *utils.Params, gIn, eIn []string, o yaoOpts) *streamOut {
+	out := &streamOut{}
+	d := newDuplex(r, o.kind, o.record)
+	out.d = d
+	if o.prepare != nil {
+		o.prepare(d)
+	}
+	if d.link != nil && o.stallWin > 0 {
+		d.link.Watch(o.stallWin, 2)
+	}
+	gi, name := mkOT(r, o.ot)
+	ei, _ := mkOT(r, o.ot)
+	out.otName = name
+	out.rec = &otx.Recorder{Inner: gi}
+	if params == nil {
+		params = utils.NewParams()
+	}
+	params.Config = &env.Config{Rand: r.Fork()}
+	out.g, out.e = runPair(d, func() (err error) {
+		sizes, err := circuit.InputSizes(gIn)
+		if err != nil {
+			return err
+		}
+		peer, err := d.connA.ReceiveInputSizes()
+		if err != nil {
+			return err
+		}
+		out.gIO, out.gRes, err = compiler.New(params).Stream(d.connA, out.rec, "{data}", strings.NewReader(src), gIn, [][]int{sizes, peer})
+		return err
+	}, func() (err error) {
+		sizes, err := circuit.InputSizes(eIn)
+		if err != nil {
+			return err
+		}
+		if err = d.connB.SendInputSizes(sizes); err != nil {
+			return err
+		}
+		if err = d.connB.Flush(); err != nil {
+			return err
+		}
+		out.eIO, out.eRes, err = circuit.StreamEvaluator(d.connB, ei, eIn, nil, false)
+		return err
+	})
+	if d.link != nil {
+		out.stalled = d.link.Stalled()
+	}
+	return out
 }
